@@ -69,7 +69,15 @@ func (fx *FnExec) SymValue(st *State, t types.Type, name string, depth int) Valu
 			st.Heap[o] = ArrV{EW: w, Len: cp, C: CSym{cx.Fresh(name, Arr(64, w))}}
 			return SliceV{Nil: nl, Obj: o, Off: BV64(0), Len: ln, Cap: cp}
 		}
-		panic(Unsupported{"symbolic slice of composite elements: " + t.String()})
+		nl := cx.Fresh(name+".nil", Bool)
+		ln := cx.Fresh(name+".len", BV(64))
+		cp := cx.Fresh(name+".cap", BV(64))
+		st.Assume(ULe(ln, cp))
+		st.Assume(ULt(cp, BV64(1<<32)))
+		st.Assume(Implies(nl, Eq(cp, BV64(0))))
+		o := cx.NewObj(name+".arr", t, ProvParam)
+		st.Heap[o] = cx.NewArrU(u.Elem(), cp)
+		return SliceV{Nil: nl, Obj: o, Off: BV64(0), Len: ln, Cap: cp}
 	case *types.Interface:
 		if IsErrorType(t) {
 			return ErrV{cx.Fresh(name, BV(8))}
@@ -207,6 +215,8 @@ func (fx *FnExec) havocValue(st *State, v Value, t types.Type, name string) Valu
 			panic(Unsupported{"havoc of reference without type"})
 		}
 		return fx.SymValue(st, t, name, 1)
+	case ArrU:
+		return fx.Cx.NewArrU(x.ET, x.Len)
 	case MapContent:
 		return MapContent{Present: fx.Cx.Fresh(name+".present", Arr(64, 1)), Val: fx.Cx.Fresh(name+".val", Arr(64, x.VW)), KW: x.KW, VW: x.VW}
 	case Opaque:
@@ -312,7 +322,7 @@ func (fx *FnExec) cutLoop(fr *Frame, h *ssa.BasicBlock, prev *ssa.BasicBlock, st
 			if !ok {
 				continue
 			}
-			old := fx.readPath(cur, w.path, nil)
+			old := fx.readPath(s2, cur, w.path, nil)
 			nv := fx.havocValue(s2, old, typeAtPath(w.obj.Typ, w.path), fmt.Sprintf("loop%d.%s", ord, w.obj.Name))
 			s2.Heap[w.obj] = fx.writePath(cur, w.path, nv)
 		}
@@ -433,6 +443,12 @@ func (fx *FnExec) EqV(a, b Value) *Term {
 		y := b.(MapContent)
 		k := fx.Cx.Fresh("sk.key", BV(64))
 		return And(Eq(Select(x.Present, k), Select(y.Present, k)), Implies(Eq(Select(x.Present, k), BVC(1, 1)), Eq(Select(x.Val, k), Select(y.Val, k))))
+	case ArrU:
+		y, ok := b.(ArrU)
+		if ok && y.ID == x.ID {
+			return True
+		}
+		return False
 	case Opaque:
 		return True
 	case nil:
@@ -496,7 +512,7 @@ func (fx *FnExec) HavocLoc(st *State, o *Object, p Path, site string) {
 	if fx.OnStore != nil {
 		fx.OnStore(fx, st, o, p, site)
 	}
-	old := fx.readPath(cur, p, nil)
+	old := fx.readPath(st, cur, p, nil)
 	nv := fx.havocValue(st, old, typeAtPath(o.Typ, p), "havoc."+o.Name)
 	st.Heap[o] = fx.writePath(cur, p, nv)
 }
